@@ -22,8 +22,8 @@
    combined (DESIGN's C05_addressed_key_only via C03_key_authentic). *)
 From Kestrel Require Import Bytes Outcome IO IOFacts Prims.
 From Kestrel.gen Require Import Extracted.
-From Kestrel.Model Require Import AeadWrap Chunks Noise NoiseSpec Files EventPreds FilesSpec ChunksSpec CombineDefs.
-From Kestrel.Proofs Require Import NoiseFacts FilesFacts CombineFiles CombineReject.
+From Kestrel.Model Require Import AeadWrap Chunks Noise NoiseSpec Files EventPreds FilesSpec ChunksSpec CombineDefs KeyAuthDefs.
+From Kestrel.Proofs Require Import NoiseFacts FilesFacts CombineFiles CombineReject LogIndep KeyAuth.
 Local Open Scope N_scope.
 
 (* ENCRYPT side.  (e', epk') is the ephemeral pair in use (injected, or the fresh draw).  If X25519(e', recipient key) or X25519(s, recipient key) is all zero — e.g. the recipient key is a low-order point — key_encrypt returns Err EOther ("Key exchange failed") and the io state is returned UNCHANGED: for every plaintext, every script, nothing read, nothing written, no flush, no event.  So no file is produced under keys derivable from public data. *)
@@ -283,4 +283,33 @@ Theorem C05_roundtrip_names_sender :
      exists s1' : io, key_decrypt P r rpk s1 = (Ok spk, s1') /\ w_out (wtr s1') = r_data (rdr s0)).
 Proof. exact (key_file_roundtrip). Qed.
 Print Assumptions C05_roundtrip_names_sender.
+
+(* under the premises of C03_key_authentic: a recipient public key that no honest file was addressed to is rejected with nothing written — a file decrypts only under the key it was encrypted to *)
+Theorem C05_addressed_key_only :
+  forall P : prims,
+  aead_ok P ->
+  hash_ok P ->
+  forall (files : list hfile) (r rpk : bytes) (s : io) (res : outcome derr bytes) (s' : io),
+  key_decrypt P r rpk s = (res, s') ->
+  hs_opens_honest P files r rpk (offered_msg (r_data (rdr s))) ->
+  run_opens_honest P files s s' ->
+  hash_inj_on P (hash_inputs P files rpk (offered_msg (r_data (rdr s)))) ->
+  keys_distinct P files ->
+  (forall f : hfile, In f files -> rpk <> hf_R f) -> rejected_no_output s s' res.
+Proof. exact (C05_addressed_key_only). Qed.
+Print Assumptions C05_addressed_key_only.
+
+(* and on success the recipient is the addressed one and the reported sender is that file's sender *)
+Theorem C05_addressed_key_only_ok :
+  forall P : prims,
+  aead_ok P ->
+  hash_ok P ->
+  forall (files : list hfile) (r rpk : bytes) (s : io) (sender : bytes) (s' : io),
+  key_decrypt P r rpk s = (Ok sender, s') ->
+  hs_opens_honest P files r rpk (offered_msg (r_data (rdr s))) ->
+  run_opens_honest P files s s' ->
+  hash_inj_on P (hash_inputs P files rpk (offered_msg (r_data (rdr s)))) ->
+  keys_distinct P files -> exists f : hfile, In f files /\ rpk = hf_R f /\ sender = hf_spk P f.
+Proof. exact (C05_addressed_key_only_ok). Qed.
+Print Assumptions C05_addressed_key_only_ok.
 
